@@ -149,9 +149,9 @@ PROPS["C05"] = dict(
 
 def _c08_runs(tier):
     rs = []
-    for mode in ("add", "transpose", "transpose_big", "copy", "submatrix", "concat"):
+    for mode in ("add", "transpose", "transpose_big", "transpose_views", "copy", "submatrix", "concat"):
         rs.append(Run(C(), "harness/p_c08.c", ["--mode=" + mode, "--setbits=24"], group=mode))
-    for mode in ("add", "transpose_big") + (("transpose", "copy", "submatrix", "concat") if tier == "thorough" else ()):
+    for mode in ("add", "transpose_big") + (("transpose", "transpose_views", "copy", "submatrix", "concat") if tier == "thorough" else ()):
         rs.append(Run(C(sse2=0, simd="native", **MIN), "harness/p_c08.c", ["--mode=" + mode, "--setbits=24"], group=mode))
     if tier == "thorough":
         rs.append(Run(C(instr="plain"), "harness/p_c08.c", ["--mode=transpose_units", "--setbits=27"], group="transpose_units"))
@@ -159,7 +159,7 @@ def _c08_runs(tier):
 
 PROPS["C08"] = dict(
     level="exploration", runs=_c08_runs,
-    rule="mzd_add/_mzd_add x 6 aliasing forms x rows {1,2,3} x every ncols in 1..130 and 64w+{-1,0,1} (w up to 10) x {all label planes LBL(b) for A resp. complemented planes for B (complete routing), ones+ones, PR pairs}; mzd_transpose for EVERY shape in 1..130 x 1..130 (all label planes and their complements; thorough additionally every single-entry source of every shape = 7.25e7 cases) with NULL/supplied destinations and transpose-twice, plus shapes up to 1300 (64-blocks, tails, recursive splits); mzd_copy, mzd_copy_row, mzd_set_ui over the same widths; mzd_submatrix for EVERY (startcol, ncols) inside a 200-column source and wide aligned/unaligned cases; mzd_concat for (ncolsA, ncolsB) in 1..130 squared , mzd_stack, mzd_extract_u/l for every n in 1..130 and non-square shapes; supplied destinations are pre-filled with ones; non-trivial = source not all-zero; distinct = distinct (operation, form, shape, pattern)",
+    rule="mzd_add/_mzd_add x 6 aliasing forms x rows {1,2,3} x every ncols in 1..130 and 64w+{-1,0,1} (w up to 10) x {all label planes LBL(b) for A resp. complemented planes for B (complete routing), ones+ones, PR pairs}; mzd_transpose for EVERY shape in 1..130 x 1..130 (all label planes and their complements; thorough additionally every single-entry source of every shape = 7.25e7 cases) with NULL/supplied destinations and transpose-twice, plus shapes up to 1300 (64-blocks, tails, recursive splits); mzd_transpose with a VIEW as source resp. as destination for every shape in 1..130 x 1..130 (quick: two thirds of the shapes above 70 x 70 skipped) and 36 larger shape pairs, 4 placements (row/word offsets, parent continuing inside the view's last word, view of a view), parent filled with ones / pseudo-random bits, parent compared word by word outside the view; mzd_copy, mzd_copy_row, mzd_set_ui over the same widths; mzd_submatrix for EVERY (startcol, ncols) inside a 200-column source and wide aligned/unaligned cases; mzd_concat for (ncolsA, ncolsB) in 1..130 squared , mzd_stack, mzd_extract_u/l for every n in 1..130 and non-square shapes; supplied destinations are pre-filled with ones; non-trivial = source not all-zero; distinct = distinct (operation, form, shape, pattern)",
     level_text="Bounded-exhaustive exploration of the data-movement routines: every shape residue, every width-specialised loop, every transpose kernel size class and every sub-matrix offset pair is executed; label-plane patterns and their complements determine the complete input-bit to output-bit routing, so 'every source entry at exactly its position and nothing else' is decided for each shape, not sampled.",
     level_note="Bounded: shapes up to 130 x 130 exhaustively, selected shapes up to 1300; routing completeness relies on the operations being bit-routing / XOR (a non-linear defect is caught by the ones+ones and dense patterns only).",
     technique="bounded-exhaustive enumeration of shapes/offsets with complete routing bases on the real code against a reference model",
